@@ -411,7 +411,11 @@ func (vc *VC) atCall(fr *Frame, st *State, pc string, short string, ord int, sit
 		if as.Assume {
 			vc.trusted[fmt.Sprintf("assumed at call %s#%d in %s: %s", short, ord, funcName(fr.fn), as.Cl.Src)] = true
 		} else {
-			vc.oblige("assert", fmt.Sprintf("%s#%d", short, ord), pc, g, site.Pos(), as.Cl.Src)
+			lab := fmt.Sprintf("%s#%d", short, ord)
+			if as.Cl.Label != "" {
+				lab += ":" + as.Cl.Label // e.g. assert[conn.EnqueueOutFrag#0:asking@C13]
+			}
+			vc.oblige("assert", lab, pc, g, site.Pos(), as.Cl.Src)
 		}
 		vc.assume(pc, g) // proved above (or explicitly assumed), available below
 	}
